@@ -2,6 +2,8 @@ import Hgxv.Proofs.C05WF
 import Hgxv.Proofs.C05Node
 import Hgxv.Proofs.C05LinkC01
 import Hgxv.Proofs.C05GetEdges
+import Hgxv.Proofs.C05Batch
+import Hgxv.Proofs.C05LinkC02
 /-! # C05 — sub-hypergraph extraction and copy are faithful and leave the source untouched
 
 Property theorems about the model `Hgxv/Model/C05.lean` (`Content κ`: weighted flag, nodes with metadata,
@@ -722,3 +724,176 @@ example : (C01.Spec.removeNode exSpec 2 true).2 = C01.Out.ok ∧
     (C01.Spec.removeNode exSpec 2 true).1.edges = [([3, 4], (16, [])), ([1], (8, [(1, 1)]))] ∧
     (step (ofSpec exSpec) (.removeNode 2 true)).edges = [([3, 4], (16, [])), ([1], (8, [(1, 1)]))] ∧
     (step (ofSpec exSpec) (.removeNode 2 true)).nodes = [(1, []), (3, []), (4, [])] := by decide
+
+/-! ## Second extension round: calls that raise half-way (`Model/C05Batch.lean`), link to `C02.Spec`
+
+`OpX κ` = the sixteen single mutators + `remove_node` as the code runs it on EVERY node (also one that is source and target of
+one directed hyperedge) + the batches `remove_edges`, `remove_nodes` (`Hypergraph`: the whole batch is validated first,
+all-or-nothing; `DirectedHypergraph`: a plain loop - what was done before the first failing call stays done).  A call
+answers (state left, returned?); `runX` keeps the state left by a call that raised. -/
+
+/-- every history over the larger operation set - calls that raised half-way included, with the state they leave - ends in
+a well-formed object (`KeyedLaws2`, `Batch` have instances for both key types) -/
+theorem C05_wf_reachable_batch [KeyedLaws κ] [KeyedLaws2 κ] [Batch κ] (w : Bool) (ops : List (OpX κ)) :
+    WF (runX (empty w : Content κ) ops) :=
+  wf_runX _ ops (wf_empty w)
+
+/-- the property's sentence for every object such a history ends in (in particular the half-done object a raising
+`DirectedHypergraph.remove_node / remove_nodes / remove_edges` leaves): every extraction returns, keeps the weightedness, holds
+exactly the selected hyperedges with the weights and metadata the object has NOW, and the documented node set with its node
+metadata (the statement of `C05_extractions_of_reachable`, over `OpX`) -/
+theorem C05_extractions_of_reachable_batch [KeyedLaws κ] [KeyedLaws2 κ] [Batch κ] (w : Bool) (ops : List (OpX κ))
+    (src : Content κ) (hsrc : src = runX (empty w : Content κ) ops) :
+    (∀ ns, (∀ n ∈ ns, n ∈ nodesOf src) →
+      ∃ r, induced src ns = some r ∧ r.weighted = src.weighted ∧
+        r.edges = src.edges.filter (fun e => decide (∀ n ∈ Keyed.members e.1, n ∈ ns)) ∧
+        (∀ n, n ∈ nodesOf r ↔ n ∈ ns) ∧ (nodesOf r).Nodup ∧
+        (∀ n ∈ ns, getNodeMeta r n = getNodeMeta src n)) ∧
+    (∀ orders sizes keep ss, sizesArg orders sizes = some ss →
+      ∃ r, byOrders src orders sizes keep = some r ∧ r.weighted = src.weighted ∧
+        (∀ e, e ∈ r.edges ↔ e ∈ src.edges ∧ ((Keyed.size e.1 : Nat) : Int) ∈ ss) ∧
+        (keysOf r).Nodup ∧
+        (∀ n, n ∈ nodesOf r ↔ if keep then n ∈ nodesOf src else ∃ e ∈ r.edges, n ∈ Keyed.members e.1) ∧
+        (nodesOf r).Nodup ∧ (∀ n ∈ nodesOf r, getNodeMeta r n = getNodeMeta src n)) ∧
+    (∀ order size upTo keepIso p, edgeFilter (κ := κ) order size upTo = some p →
+      ∃ r, edgesSub src order size upTo keepIso = some r ∧ r.weighted = src.weighted ∧
+        r.edges = src.edges.filter (fun e => p e.1) ∧
+        (∀ n, n ∈ nodesOf r ↔ if keepIso then n ∈ nodesOf src else ∃ e ∈ r.edges, n ∈ Keyed.members e.1) ∧
+        (nodesOf r).Nodup ∧ (∀ n ∈ nodesOf r, getNodeMeta r n = getNodeMeta src n)) := by
+  have hwf : WF src := hsrc ▸ C05_wf_reachable_batch w ops
+  exact ⟨fun ns hsub => C05_induced _ ns hwf hsub,
+   fun orders sizes keep ss hss => C05_by_sizes _ orders sizes keep ss hwf hss,
+   fun order size upTo keepIso p hp => C05_edges_sub _ order size upTo keepIso p hwf hp⟩
+
+/-- `remove_node(node, keep_edges)` as the code runs it, on a well-formed object, the three cases:
+absent node - raises, nothing changed; present node on one side only - returns, and it is the call `C05_remove_node` describes;
+present node that is source AND target of one hyperedge (directed only) - the call RAISES (the removal loop meets that hyperedge
+a second time), and the object it leaves is well-formed, with the SAME node table (the node is still there, with its metadata),
+the same flag, the same incidence / empty-edge / hypergraph metadata; what is gone are the hyperedges the loop removed before
+the repeat (with `keep_edges` the shrunk hyperedges have all been inserted - the doubly incident one twice, its weight
+counted twice; see the examples below) -/
+theorem C05_remove_node_both_sides [KeyedLaws κ] [KeyedLaws2 κ] (c : Content κ) (n : Node) (keep : Bool) (hwf : WF c) :
+    (n ∉ nodesOf c → removeNodeRaw c n keep = (c, false)) ∧
+    (n ∈ nodesOf c → onBothSides c n = false →
+      ∃ c', removeNode c n keep = some c' ∧ removeNodeRaw c n keep = (c', true)) ∧
+    (n ∈ nodesOf c → onBothSides c n = true →
+      (removeNodeRaw c n keep).2 = false ∧ WF (removeNodeRaw c n keep).1 ∧
+      (removeNodeRaw c n keep).1.nodes = c.nodes ∧ (removeNodeRaw c n keep).1.weighted = c.weighted ∧
+      (removeNodeRaw c n keep).1.inc = c.inc ∧ (removeNodeRaw c n keep).1.emptyEdges = c.emptyEdges ∧
+      (removeNodeRaw c n keep).1.hmeta = c.hmeta) := by
+  obtain ⟨h1, h2, h3⟩ := removeNodeRaw_spec c n keep hwf
+  refine ⟨h1, h2, fun hn htw => ?_⟩
+  obtain ⟨e, hk, hnodes, hw, haux⟩ := h3 hn htw
+  simp only [aux, Prod.mk.injEq] at haux
+  exact ⟨e, hk, hnodes, hw, haux.1, haux.2.1, haux.2.2⟩
+
+/-- `Hypergraph.remove_edges(edge_list)` (the validating class): every listed hyperedge present and none listed twice - the batch
+returns and the hyperedges left are exactly the old entries whose key is not listed (list equality: weights, metadata, order),
+nothing else changes; otherwise it raises and NOTHING changed.  `hv` holds for `UKey` (`rfl`, example below) -/
+theorem C05_remove_edges_all_or_nothing [Batch κ] (hv : Batch.validates κ = true) (c : Content κ) (ks : List κ) (hwf : WF c) :
+    ((ks.all (fun k => AL.has c.edges k) && decide ks.Nodup) = true →
+      removeEdgesB c ks = ({ c with edges := c.edges.filter (fun e => decide (e.1 ∉ ks)) }, true)) ∧
+    ((ks.all (fun k => AL.has c.edges k) && decide ks.Nodup) = false → removeEdgesB c ks = (c, false)) :=
+  removeEdgesB_validating hv c ks hwf
+
+/-- `Hypergraph.remove_nodes(node_list, keep_edges)`: every listed node present and none listed twice - the batch returns and is
+the run of the single `remove_node` calls (each described by `C05_remove_node`); otherwise it raises and NOTHING changed.
+`hv`, `htw` hold for `UKey` (no node is on two sides of an undirected hyperedge; example below) -/
+theorem C05_remove_nodes_all_or_nothing [KeyedLaws κ] [Batch κ] (hv : Batch.validates κ = true)
+    (htw : ∀ (c : Content κ) (n : Node), onBothSides c n = false) (c : Content κ) (ns : List Node) (keep : Bool) (hwf : WF c) :
+    ((ns.all (fun n => AL.has c.nodes n) && decide ns.Nodup) = true →
+      removeNodesB c ns keep = (run c (ns.map (fun n => Op.removeNode n keep)), true)) ∧
+    ((ns.all (fun n => AL.has c.nodes n) && decide ns.Nodup) = false → removeNodesB c ns keep = (c, false)) := by
+  have h := removeNodesB_validating hv htw c ns keep hwf
+  refine ⟨fun hv => ?_, h.2⟩
+  rw [h.1 hv, run, List.foldl_map]
+
+/-- the directed batches are plain loops: `remove_edges` of `DirectedHypergraph` on any object is the loop of the single
+`remove_edge` calls that stops at the first one that raises; the state reached there is what the call leaves -/
+theorem C05_directed_batches_are_loops (c : Content DKey) (ks : List DKey) (ns : List Node) (keep : Bool) :
+    removeEdgesB c ks = loopRaw (fun h k => orSame h (removeEdge h k)) c ks ∧
+    removeNodesB c ns keep = loopRaw (fun h n => removeNodeRaw h n keep) c ns := by
+  simp [removeEdgesB, removeNodesB, Batch.validates]
+
+-- non-vacuity: the run of the real code shown in notes/C05.md (weights in quanta of 1/4): node 1 is source and target of
+-- `((1,4),(1,5))`; `remove_node(1)` raises; left: the two hyperedges the loop did not reach / does not touch
+def C05.exBoth : Content DKey :=
+  run (empty true) [.addEdge ([1, 2], [3]) (some 8) [(0, 1)], .addEdge ([1, 4], [1, 5]) (some 12) [(1, 2)],
+    .addEdge ([6], [1, 7]) (some 6) [], .addEdge ([4], [5]) (some 4) []]
+example : WF exBoth := C05_wf_reachable true _
+example : onBothSides exBoth 1 = true ∧ 1 ∈ nodesOf exBoth := by decide
+example : (removeNodeRaw exBoth 1 false).2 = false ∧
+    (removeNodeRaw exBoth 1 false).1.edges = [(([6], [1, 7]), (6, [])), (([4], [5]), (4, []))] ∧
+    nodesOf (removeNodeRaw exBoth 1 false).1 = [1, 2, 3, 4, 5, 6, 7] := by decide
+example : (removeNodeRaw exBoth 1 true).2 = false ∧
+    (removeNodeRaw exBoth 1 true).1.edges =
+      [(([6], [1, 7]), (6, [])), (([4], [5]), (28, [(1, 2)])), (([2], [3]), (8, [(0, 1)])), (([6], [7]), (6, []))] := by decide
+example : firstRepeat [] (Keyed.incident 1 (keysOf exBoth)) = some ([([1, 2], [3]), ([1, 4], [1, 5])], ([1, 4], [1, 5])) := by
+  decide
+-- a history that goes on after the raising call, and an extraction of the object it ends in
+example : ∃ r, edgesSub (runX exBoth [.removeNodeRaw 1 true, .removeEdges [([2], [3]), ([9], [9]), ([6], [7])],
+      .base (.addEdge ([1], [4]) (some 4) [])]) none (some 2) false false = some r ∧
+    keysOf r = [([4], [5]), ([6], [7]), ([1], [4])] ∧ nodesOf r = [4, 5, 6, 7, 1] := by decide
+example : Batch.validates UKey = true ∧ Batch.validates DKey = false := ⟨rfl, rfl⟩
+example : ∀ (c : Content UKey) (n : Node), onBothSides c n = false := fun c n => by simp [onBothSides, Keyed.twice]
+-- the validating class: a batch with an absent / repeated item changes nothing; a valid one is one filter
+example : removeEdgesB exSrc [[1, 2], [7, 8]] = (exSrc, false) ∧ removeEdgesB exSrc [[1, 2], [1, 2]] = (exSrc, false) ∧
+    (removeEdgesB exSrc [[4], [1, 2]]).2 = true ∧ removeNodesB exSrc [1, 77] false = (exSrc, false) ∧
+    (removeNodesB exSrc [1, 4] true).2 = true := by decide
+
+/-! ### the content model at `κ = DKey` is C02's abstract specification -/
+
+/-- one call of `add_node, add_nodes, add_edge, remove_edge, set_weight, set_node_metadata, set_edge_metadata, clear` on
+`C02.Spec` (the abstract object C02 proves to be the abstraction of `DirectedHypergraph`'s id tables) is the C05 step on its
+content, with the same verdict; no hypothesis on the spec.  Hence `C05.WF` is an invariant of every such `C02.Spec` history and
+the extraction theorems hold of every `DirectedHypergraph` it reaches. -/
+theorem C05_link_C02 (a : C02.Spec) (op : C02.Op) (op' : Op DKey) (hl : liftOpD op = some op') :
+    ofSpecD (C02.Spec.applyOp a op).1 = step (ofSpecD a) op' ∧
+    ((C02.Spec.applyOp a op).2 = .ok ↔ (apply? (ofSpecD a) op').isSome = true) :=
+  link_C02 a op op' hl
+
+/-- `remove_edges` on `C02.Spec` (C02 models it as the plain loop, half-done state kept) leaves the content the C05 batch
+leaves, with the same verdict -/
+theorem C05_link_C02_remove_edges (es : List C02.RawEdge) (ks : List DKey) (a : C02.Spec)
+    (h : es.map C02.canonStrict = ks.map some) :
+    ofSpecD (C02.Spec.removeEdges a es).1 = (removeEdgesB (ofSpecD a) ks).1 ∧
+    ((C02.Spec.removeEdges a es).2 = .ok ↔ (removeEdgesB (ofSpecD a) ks).2 = true) :=
+  link_C02_removeEdges es ks a h
+
+/-- `remove_node(node, keep_edges)` on `C02.Spec`, EVERY node - also one that is source and target of one hyperedge, where C02
+models the call as raising half-way and keeping the half-done state - leaves exactly the content `removeNodeRaw` leaves (nodes,
+hyperedge listing with weights and metadata), with the same verdict.  `hcan`: stored keys are sorted (C02's canonical form, which
+every key stored by C02's mutators has); `hm` (only with `keep_edges`): no stored hyperedge metadata is Python's `None`, which
+C02 turns into `{}` when it hands it on and C05, a model of dict metadata, does not have -/
+theorem C05_link_C02_remove_node (a : C02.Spec) (n : Node) (keep : Bool)
+    (hcan : ∀ k ∈ AL.keys a.edges, C02.canonStrict (C02.RawEdge.ofKey k) = some k)
+    (hm : keep = true → NoNoneMeta a) :
+    ofSpecD (C02.Spec.removeNode a n keep).1 = (removeNodeRaw (ofSpecD a) n keep).1 ∧
+    ((C02.Spec.removeNode a n keep).2 = .ok ↔ (removeNodeRaw (ofSpecD a) n keep).2 = true) :=
+  link_C02_removeNode a n keep hcan hm
+
+-- non-vacuity: a spec with node 1 on both sides of `((1,4),(1,5))`: hypotheses hold, C02 answers rej and keeps the half-done state
+def C05.exSpecBoth : C02.Spec :=
+  { weighted := true, nodes := [(1, []), (2, []), (3, []), (4, []), (5, []), (6, []), (7, [])],
+    edges := [(([1, 2], [3]), (8, [(0, 1)])), (([1, 4], [1, 5]), (12, [(1, 2)])), (([6], [1, 7]), (6, [])), (([4], [5]), (4, []))] }
+example : ∀ k ∈ AL.keys exSpecBoth.edges, C02.canonStrict (C02.RawEdge.ofKey k) = some k := by decide
+example : NoNoneMeta exSpecBoth := by unfold NoNoneMeta; decide
+example : (C02.Spec.removeNode exSpecBoth 1 true).2 = .rej ∧
+    (C02.Spec.removeNode exSpecBoth 1 true).1.edges =
+      [(([6], [1, 7]), (6, [])), (([4], [5]), (28, [(1, 2)])), (([2], [3]), (8, [(0, 1)])), (([6], [7]), (6, []))] ∧
+    (removeNodeRaw (ofSpecD exSpecBoth) 1 true).1.edges =
+      [(([6], [1, 7]), (6, [])), (([4], [5]), (28, [(1, 2)])), (([2], [3]), (8, [(0, 1)])), (([6], [7]), (6, []))] := by decide
+
+def C05.exSpecD : C02.Spec :=
+  { weighted := true, nodes := [(1, []), (2, [(0, 1)]), (3, [])],
+    edges := [(([1], [2]), (8, [(1, 1)])), (([2, 3], [1]), (4, []))], hmeta := [] }
+example : liftOpD (.addEdge ⟨.nodes [3, 2], .scalar 1⟩ (some 6) none) = some (.addEdge ([2, 3], [1]) (some 6) []) := rfl
+example : (C02.Spec.applyOp exSpecD (.addEdge ⟨.nodes [3, 2], .scalar 1⟩ (some 6) none)).1.edges =
+    [(([1], [2]), (8, [(1, 1)])), (([2, 3], [1]), (10, []))] ∧
+    (step (ofSpecD exSpecD) (.addEdge ([2, 3], [1]) (some 6) [])).edges =
+    [(([1], [2]), (8, [(1, 1)])), (([2, 3], [1]), (10, []))] := by decide
+example : (C02.Spec.removeEdges exSpecD [⟨.nodes [1], .nodes [2]⟩, ⟨.nodes [5], .nodes [6]⟩, ⟨.nodes [3, 2], .nodes [1]⟩]).2 = .rej ∧
+    (C02.Spec.removeEdges exSpecD [⟨.nodes [1], .nodes [2]⟩, ⟨.nodes [5], .nodes [6]⟩, ⟨.nodes [3, 2], .nodes [1]⟩]).1.edges =
+      [(([2, 3], [1]), (4, []))] ∧
+    removeEdgesB (ofSpecD exSpecD) [([1], [2]), ([5], [6]), ([2, 3], [1])] =
+      ({ ofSpecD exSpecD with edges := [(([2, 3], [1]), (4, []))] }, false) := by decide
